@@ -32,8 +32,8 @@ OV = {"internal/verifc40/solidity.go": "shared/c40/solidity.go"}
 OV_T = dict(OV)
 OV_T["pkg/chain/ethereum/zz_verif_c40_export.go"] = "pkg/chain/ethereum/c40_export.go"
 
-DKG_ACTS = ["SignResult", "Collect", "GateReject", "GatePass", "NotAwaiting", "Assemble", "Precheck", "Submit", "Approve", "RegisterSigner"]
-CLAIM_ACTS = ["NewClaim", "SignClaim", "Collect", "GateReject", "GatePass", "NonceMoved", "Assemble", "Notify"]
+DKG_ACTS = ["SignResult", "Collect", "GateReject", "GatePass", "NotAwaiting", "Assemble", "Precheck", "Submit", "Superseded", "Approve", "RegisterSigner"]
+CLAIM_ACTS = ["NewClaim", "SignClaim", "Collect", "GateReject", "GatePass", "NonceMoved", "Assemble", "Superseded", "Notify"]
 
 # the Solidity statements the transcriptions rest on: (file, statement with whitespace normalized)
 SOL = "solidity/ecdsa/contracts/"
@@ -172,7 +172,7 @@ def run(ctx):
     mc_claim = ctx.pick([], ["MC_Claim5", "MC_Claim5wide", "MC_Claim4", "MC_Claim6"])
     gen_dkg = ctx.pick(["Gen_N4q"], ["Gen_N4", "Gen_N5", "Gen_N6"])
     gen_claim = ctx.pick(["Gen_Claim4"], ["Gen_Claim4", "Gen_Claim5", "Gen_Claim6"])
-    T = ctx.pick(900, 3000)
+    T = ctx.pick(2400, 6000)
     jobs = []
     for c in mc_dkg:
         jobs.append(lambda c=c: ("mcd", c, ctx.tlc(SPEC, "MC_ChainRules", cfg=c, coverage=True, label=c, timeout=T, workers=4)))
@@ -226,10 +226,10 @@ def run(ctx):
         env["VERIF_C40_CLIENT_" + k] = v
     ge, gt = par([
         lambda: ctx.gotest("pkg/chain/ethereum", "^TestVerif_C40_", ["c40_test.go"], inputs={"cases.ndjson": cases, "claims.ndjson": claims},
-                           extra_overlay=OV, env={"VERIF_RUNS": ctx.pick(60, 600)}, label="chain", timeout=ctx.pick(1200, 3000)),
+                           extra_overlay=OV, env={"VERIF_RUNS": ctx.pick(60, 600)}, label="chain", timeout=ctx.pick(3000, 7200)),
         lambda: ctx.gotest("pkg/tbtc", "^TestVerif_C40_", ["c40_test.go", "c40_export_test.go"],
                            inputs={"cases.ndjson": t_cases, "claims.ndjson": t_claims}, extra_overlay=OV_T, env=env, label="submit",
-                           timeout=ctx.pick(1500, 3000)),
+                           timeout=ctx.pick(3000, 7200)),
     ])
     ctx.absorb(ge)
     ctx.absorb(gt)
@@ -238,9 +238,9 @@ def run(ctx):
         need = {"dkg": ["assembled", "registered", "verdict/", "verdict/Too few signatures", "verdict/Too many members misbehaving during DKG",
                         "verify/honest/true", "verify/mislabelled/false", "verify/otherOperator/false", "verify/highS/false"],
                 "claims": ["assembled", "notify/", "verify/honest/true"],
-                "submit": ["pc/done", "pc/aborted", "pc/failed"],
-                "submitclaim": ["pc/done", "pc/aborted", "pc/failed"],
-                "realparams": ["submitted", "stopped"]}
+                "submit": ["pc/done", "pc/failed", "aborted/not awaiting the result", "aborted/superseded while waiting"],
+                "submitclaim": ["pc/done", "pc/failed", "aborted/claim already submitted", "aborted/superseded while waiting"],
+                "realparams": ["submitted", "stopped", "claim-accepted", "claim-stopped"]}
         for name, keys in need.items():
             cnt = (h.get(name) or {}).get("counters") or {}
             for k in keys:
